@@ -565,6 +565,8 @@ pub struct FaultFamily {
     pub prefix: Vec<Op>,
     pub alpha: Alpha,
     pub replica: bool,
+    /// replica alphabet with writer growth (appends) up to this writer length; 0 = static writer
+    pub growth_to: u64,
 }
 
 /// Well-formed replica requests in the current model state (used by the replica families).
@@ -601,6 +603,26 @@ pub fn replica_ops(m: &SysModel, rich: bool) -> Vec<Op> {
     v
 }
 
+/// Replica alphabet with writer growth, a few hash requests and replica reopen: leaves
+/// upgrade-only, nodes-only and block-only entries pending in the replica's oplog.
+pub fn replica_ops_growth(m: &SysModel, max_writer_len: u64) -> Vec<Op> {
+    let mut v = replica_ops(m, false);
+    if let Some(r) = m.r.as_ref() {
+        if r.len == m.w.len() && r.len > 0 {
+            for j in [0u64, 1, 2 * (r.len - 1)] {
+                if crate::scheme::right_span(j) < 2 * r.len {
+                    v.push(Op::RSync(Req { hash: Some(j), ..Default::default() }));
+                }
+            }
+        }
+    }
+    if m.w.len() < max_writer_len {
+        v.push(Op::Append(Blk::P(2, 4)));
+    }
+    v.dedup();
+    v
+}
+
 pub fn fault_families(tier: &str, scale: i32) -> Vec<FaultFamily> {
     // scale: depth adjustment relative to C02 (torn writes multiply the cost: scale = -1)
     let quick = tier == "quick";
@@ -610,15 +632,16 @@ pub fn fault_families(tier: &str, scale: i32) -> Vec<FaultFamily> {
     let mut mro_medium = Alpha::medium();
     mro_medium.make_read_only = true;
     let mut v = vec![
-        FaultFamily { name: "full-alphabet", depth: d(3, 4), prefix: vec![], alpha: mro_full, replica: false },
-        FaultFamily { name: "medium-alphabet", depth: d(4, 6), prefix: vec![], alpha: mro_medium, replica: false },
-        FaultFamily { name: "small-alphabet", depth: d(6, 8), prefix: vec![], alpha: Alpha::small(), replica: false },
+        FaultFamily { name: "full-alphabet", depth: d(3, 4), prefix: vec![], alpha: mro_full, replica: false, growth_to: 0 },
+        FaultFamily { name: "medium-alphabet", depth: d(4, 6), prefix: vec![], alpha: mro_medium, replica: false, growth_to: 0 },
+        FaultFamily { name: "small-alphabet", depth: d(6, 8), prefix: vec![], alpha: Alpha::small(), replica: false, growth_to: 0 },
         FaultFamily {
             name: "append-reopen",
             depth: d(10, 13),
             prefix: vec![],
-            alpha: Alpha { sizes: vec![1], batches: vec![], clears: Clears::None, reopen: true, make_read_only: false, max_len: u64::MAX },
+            alpha: Alpha { sizes: vec![1], batches: vec![], clears: Clears::None, reopen: true, make_read_only: false, max_len: u64::MAX, far_clear: false },
             replica: false,
+            growth_to: 0,
         },
     ];
     // replica families: fixed writer logs, all well-formed request orders to a depth
@@ -627,8 +650,9 @@ pub fn fault_families(tier: &str, scale: i32) -> Vec<FaultFamily> {
         Op::Clear(1, 2),
     ];
     let w3 = vec![Op::Append(Blk::P(2, 0)), Op::Append(Blk::P(1, 0)), Op::Append(Blk::P(3, 0))];
-    v.push(FaultFamily { name: "replica-of-5-with-cleared", depth: d(3, 5), prefix: w5, alpha: Alpha::small(), replica: true });
-    v.push(FaultFamily { name: "replica-of-3", depth: d(4, 6), prefix: w3, alpha: Alpha::small(), replica: true });
+    v.push(FaultFamily { name: "replica-of-5-with-cleared", depth: d(3, 5), prefix: w5, alpha: Alpha::small(), replica: true, growth_to: 0 });
+    v.push(FaultFamily { name: "replica-of-3", depth: d(4, 6), prefix: w3.clone(), alpha: Alpha::small(), replica: true, growth_to: 0 });
+    v.push(FaultFamily { name: "replica-of-3-with-writer-growth-and-hash-requests", depth: d(5, 6), prefix: w3[..2].to_vec(), alpha: Alpha::small(), replica: true, growth_to: 5 });
     v
 }
 
@@ -641,8 +665,11 @@ pub fn run_fault_property(prop: &'static str, tier: &str, level: &str, cfg: Faul
     for fam in fams {
         let alpha = fam.alpha.clone();
         let replica = fam.replica;
+        let growth_to = fam.growth_to;
         let af = move |m: &SysModel, _d: usize| {
-            if replica {
+            if replica && growth_to > 0 {
+                replica_ops_growth(m, growth_to)
+            } else if replica {
                 replica_ops(m, true)
             } else {
                 alpha.ops(m)
